@@ -284,9 +284,11 @@ def rewriteInputs (callee : Nat) (inputs : List TRef) : List TRef :=
   (memOperands callee).foldl (fun acc t => t :: acc) inputs
 
 /-- `add_const_tens_to_startup_cascaded_pass` for the tensors that are neither scratch tensor: the outputs of the start-up pass
-    (these get a live range in the final `Permanent_CPU` allocation) -/
-def startupOutputs (callee : Nat) (outs : List TRef) : List TRef :=
-  (memOperands callee).foldl (fun acc t => if t ≠ .scratch ∧ t ≠ .fast then t :: acc else acc) outs
+    (these get a live range in the final `Permanent_CPU` allocation).  The function inserts into `passes[0].outputs` and into
+    the cascaded pass's `outputs`; `aliased` says that the two are one list object (then every tensor is entered twice) -/
+def startupOutputs (aliased : Bool) (callee : Nat) (outs : List TRef) : List TRef :=
+  (memOperands callee).foldl (fun acc t =>
+    if t ≠ .scratch ∧ t ≠ .fast then (if aliased then t :: t :: acc else t :: acc) else acc) outs
 
 /-- which memory tensor holds the tensors of a memory type, as the allocation lists of `scheduler._update_tensor_allocation`
     and `compiler_driver` place them -/
